@@ -15,7 +15,7 @@
        (the pairing is positional).
      pw vs S = sum of the powers of the validators with index in S. *)
 From Coq Require Import List ZArith NArith Bool.
-From TM Require Import Generated.Consts C07.Model C07.Proofs.
+From TM Require Import Generated.Consts C07.Model C07.Canonical C07.Proofs.
 Import ListNotations.
 Open Scope Z_scope.
 
@@ -203,6 +203,32 @@ Theorem C07_members_distinct_addresses :
 Proof. exact members_distinct_addresses. Qed.
 Print Assumptions C07_members_distinct_addresses.
 
+
+(* ---- the canonical vote's field widths (Canonical.v) -------------------------------------- *)
+
+(* CanonicalVote carries height and round as sfixed64 (8 bytes, two's complement).  For every
+   pair of votes whose heights and rounds are int64 values — all a Go vote can hold; the int32
+   round is sign-extended — equal wire records (chain, type, 8 height bytes, 8 round bytes, block
+   id, timestamp) mean equal abstract records: no two distinct (chain, height, round, type,
+   block id, timestamp) share their canonical fields. *)
+Theorem C07_canonical_record_injective :
+  forall a b : signmsg,
+    signmsg_in_range a -> signmsg_in_range b ->
+    canonical_record a = canonical_record b -> a = b.
+Proof. exact canonical_record_inj. Qed.
+Print Assumptions C07_canonical_record_injective.
+
+(* Hence the signature oracle of the run ("made by that key over that abstract record") is the
+   oracle "made by that key over a record with the same wire fields" on int64 heights/rounds:
+   the monitors, which use the former with unbounded integers, lose nothing against an
+   implementation that signs and verifies the full-width record. *)
+Theorem C07_wire_oracle_is_ideal :
+  forall (pk : key) (m : signmsg) (s : isig),
+    signmsg_in_range m -> (forall k m', s = Signed k m' -> signmsg_in_range m') ->
+    wire_verify pk m s = ideal_verify pk m s.
+Proof. exact wire_oracle_is_ideal. Qed.
+Print Assumptions C07_wire_oracle_is_ideal.
+
 (* ---- non-vacuity, boundaries, and the limit of the trusting theorem (closed computations) ----- *)
 
 Definition ex_vs : list validator :=
@@ -306,3 +332,20 @@ Example C07_unknown_flag_panics :
   verify_commit ideal_verify ex_vs 7 5 10 (ex_commit [ex_block 11 1 100; ex_block 12 2 101; odd]) = R_panic /\
   verify_commit_light ideal_verify ex_vs 7 5 10 (ex_commit [ex_block 11 1 100; ex_block 12 2 101; odd]) = R_err_power 2 2.
 Proof. vm_compute. split; reflexivity. Qed.
+
+(* the width matters, and the range premise is needed: heights 2^32 apart differ in their 8-byte
+   field but would collide in a 4-byte one (a signature for height 5 would count at height
+   2^32 + 5); beyond int64 — no Go value — even 8 bytes collide *)
+Example C07_canonical_width_needed :
+  let m (h r : Z) := sign_msg 7 h r 5 100 in
+  signmsg_in_range (m 4294967301 2147483647) /\ signmsg_in_range (m 5 (-1)) /\
+  canonical_record (m 5 0) <> canonical_record (m 4294967301 0) /\
+  canonical_record (m 5 0) <> canonical_record (m 5 65536) /\
+  canonical_record (m 5 2147483647) <> canonical_record (m 5 (-1)) /\
+  sfixed32 5 = sfixed32 4294967301 /\
+  canonical_record (m 5 0) = canonical_record (m (5 + 18446744073709551616) 0) /\
+  wire_verify 11 (m 4294967301 0) (Signed 11 (m 5 0)) = false.
+Proof.
+  cbv zeta. unfold signmsg_in_range, int64_range.
+  repeat split; try (vm_compute; congruence); try (vm_compute; reflexivity).
+Qed.
